@@ -160,6 +160,9 @@ func (c *Ctx) flushUnmodified(rule string) {
 					}
 				case *ssa.BinOp, *ssa.DebugRef, *ssa.Range:
 					okUse = true
+				case *ssa.IndexAddr:
+					// elements read (counted, inspected), never written or handed on
+					okUse = x.X == ssa.Value(ld) && readOnlyAddr(x, 0)
 				}
 				if !okUse {
 					r.Bad(rule, name, fld+" handed on", posf(c, ref), "the queued events are handed to something other than their store before the flush ("+truncateStr(ref.String(), 60)+"): they can be reordered or rewritten in place, so the store does not receive the changes in the order the handlers made them")
@@ -181,6 +184,11 @@ func (c *Ctx) flushUnmodified(rule string) {
 	}
 	// no store to the queue fields outside setState
 	for _, f := range c.P.Funcs {
+		// a functional option applied by the constructor to the writer it has just
+		// allocated (pre-sizing the queues) acts before anything is queued
+		if c.optionOnFreshObject(f) {
+			continue
+		}
 		for _, b := range f.Blocks {
 			for _, in := range b.Instrs {
 				st, ok := in.(*ssa.Store)
@@ -720,4 +728,28 @@ func feasibleOperands(v ssa.Value, d int) []ssa.Value {
 		}
 	}
 	return out
+}
+
+// readOnlyAddr: the address is only loaded from (possibly through field
+// addresses): nothing stores through it or passes it on.
+func readOnlyAddr(a ssa.Value, d int) bool {
+	if a.Referrers() == nil || d > 4 {
+		return false
+	}
+	for _, ref := range *a.Referrers() {
+		switch x := ref.(type) {
+		case *ssa.UnOp:
+			if x.Op != token.MUL || x.X != a {
+				return false
+			}
+		case *ssa.FieldAddr:
+			if !readOnlyAddr(x, d+1) {
+				return false
+			}
+		case *ssa.DebugRef:
+		default:
+			return false
+		}
+	}
+	return true
 }
